@@ -188,7 +188,7 @@ def gen_case(seed, idx, tier="quick"):
     if parse_leg and rng.random() < 0.45:
         colls = [make_lossless(c, rng) for c in colls]
     args = {
-        "add_sequences": mode == "chrom" and rng.random() < 0.5,
+        "add_sequences": mode in ("chrom", "chunk") and rng.random() < 0.5,
         # ordered=False (collections in input order) only on the writer leg: after a parse the input order is whatever
         # order the GFF3 database returns the sequences in, so byte identity of a re-export is only meaningful when ordered
         "ordered": True if parse_leg else rng.random() < 0.6,
@@ -622,6 +622,17 @@ def _canon_exp_name(n):
     return None if n is None else (n if n != "" else "nan")
 
 
+def _file_sequence(spec):
+    """The sequence a file exported from this spec carries: the chromosome, or - for a collection on a sequence chunk,
+    which can only be exported in chunk-relative coordinates when sequences are asked for - the chunk itself."""
+    par = spec["parent"]
+    seq = par["genome"]["seq"]
+    if par["mode"] == "chunk":
+        a, b = par["chunk"]
+        return seq[a:b]
+    return seq
+
+
 def check_wellformed(text, case):
     """Oracle (a): syntax + the tree of rows equals the tree expected from the spec."""
     fs = []
@@ -719,7 +730,7 @@ def check_wellformed(text, case):
     # sequence-region + FASTA
     if args["add_sequences"]:
         for spec in case["specs"]:
-            seq = spec["parent"]["genome"]["seq"]
+            seq = _file_sequence(spec)
             want = f"##sequence-region {spec['sequence_name']} 1 {len(seq)}"
             if want not in directives:
                 bad("sequence_region_header", want)
@@ -986,7 +997,7 @@ def check_reparse(case, imp):
                         bad("sequence_not_attached")
                         break
     if case["args"]["add_sequences"] and "fasta_plain" in imp:
-        want = sorted([s["sequence_name"], s["parent"]["genome"]["seq"]] for s in case["specs"])
+        want = sorted([s["sequence_name"], _file_sequence(s)] for s in case["specs"])
         if sorted(imp["fasta_plain"]) != want:
             bad("fasta_extract")
         if imp.get("fasta_short_read") != imp.get("fasta_plain"):
@@ -1114,7 +1125,7 @@ def run_case(case):
             # whatever the parser made of the file, exporting *that* model must again be well-formed and faithful to it
             if "models" in imp:
                 case_y = {"args": dict(case["args"], chromosome_relative_coordinates=True, add_sequences=case["args"]["add_sequences"]),
-                          "specs": [dict(m, parent={"mode": "chrom", "genome": {"seq": next((sp["parent"]["genome"]["seq"] for sp in case["specs"] if sp["sequence_name"] == m["sequence_name"]), "")}})
+                          "specs": [dict(m, parent={"mode": "chrom", "genome": {"seq": next((_file_sequence(sp) for sp in case["specs"] if sp["sequence_name"] == m["sequence_name"]), "")}})
                                     for m in imp["models"]]}
                 wf2, _ = check_wellformed(imp["reexport"], case_y)
                 for f in wf2:
